@@ -30,7 +30,8 @@ def to_real(rf, cls=None):
                          for ak, av in v.attrs.items())
         tc = 'c' if v.data.dtype.kind == 'S' else v.data.dtype.char
         if v.masked:
-            var = f.createVariable(k, tc, v.dims, fill_value=v.fill, **kw)
+            fv = kw.pop('fill_value', None)
+            var = f.createVariable(k, tc, v.dims, fill_value=v.fill if v.fill is not None else fv, **kw)
             var[...] = np.ma.MaskedArray(v.data.copy(), mask=v.mask.copy())
         else:
             var = f.createVariable(k, tc, v.dims, **kw)
